@@ -673,6 +673,30 @@ def run(ctx):
                             req, thunk, (lambda r: r) if fclass == 'CNF' else (lambda r: [pbc_to_py(c) for c in r]),
                             (meaning_fails_cnf if fclass == 'CNF' else meaning_fails_opb, lits, fun),
                             ('lin', fclass, tuple(lits), op, k, cont_name), nontrivial=(n >= 1))
+                        # the same call with check=False on a formula that already has the variables: the flag only skips the
+                        # validation of the literals, the constraint added must be the same (every container, every operator)
+                        if n >= 1 and 0 not in lits and (fclass == 'CNF' or op not in ('<', '>')):
+                            if quick and (k + n) % 2 != 0 and op != '==':
+                                continue
+                            def thunk_nc(mk=mk, op=op, k=k, fclass=fclass, top=max(abs(x) for x in lits)):
+                                F = CNF() if fclass == 'CNF' else OPB()
+                                F.update_variable_number(top)
+                                arg = mk()
+                                before = list(arg) if not hasattr(arg, '__next__') else None
+                                if fclass == 'CNF' and op in ('<', '>'):
+                                    F.add_linear(arg, op, k, check=False)
+                                else:
+                                    {'<=': F.cardinality_leq, '>=': F.cardinality_geq, '==': F.cardinality_eq,
+                                     '!=': F.cardinality_neq}[op](arg, k, check=False) if (fclass == 'OPB' or k % 2) else \
+                                        F.add_linear(arg, op, k, check=False)
+                                if before is not None and list(arg) != before:
+                                    raise AssertionError('argument modified')
+                                return [list(c) for c in F]
+                            add('linear-nocheck-' + fclass, dict(call='add_linear / cardinality_*', cls=fclass, lits=lits, op=op, k=k,
+                                                                 container=cont_name, check=False),
+                                req, thunk_nc, (lambda r: r) if fclass == 'CNF' else (lambda r: [pbc_to_py(c) for c in r]),
+                                (meaning_fails_cnf if fclass == 'CNF' else meaning_fails_opb, lits, fun),
+                                ('lin-nocheck', fclass, tuple(lits), op, k, cont_name), nontrivial=True)
         # parity
         if n <= (6 if quick else 9):
             for const in (0, 1):
